@@ -919,6 +919,7 @@ def run_property(prop, tier, seed):
         ic_stage(out, "index-through-region", prop, ["opt", "list", "vec"], "full", 4 if q else 5, 0)
         dictionary_random_stage(out, q, seed, lambda e: e["why"] in ("push-panicked", "read-failed", "read-differs", "read-back-differs"),
                                 "dictionary-histories")
+        huffman_random_stage(out, q, seed, lambda e: e["why"] in ("push-panicked", "read-failed", "read-differs"), "huffman-histories")
         coded_columns_stage(out, q, seed, lambda e: e["why"] in ("read-failed", "read-differs", "push-into-merged-panicked"))
         contract_trace_stage(out, ["C01"], q, seed)
     elif prop == "C02":
@@ -938,6 +939,8 @@ def run_property(prop, tier, seed):
                      ["push", "clear", "clone", "clone_from", "merge", "serde", "push_from"])
         string_codec_stage(out, q, seed)
         string_alphabet_stage(out)
+        # long histories with copies and read-item pushes: every &str handed out is re-validated by the recorder
+        contract_trace_stage(out, ["C04"], q, seed, subjects=names)
     elif prop == "C08":
         region_stage(out, "clear", prop, allnames, 1, 4 if q else 5, 0, 3 if q else 4, ["push", "clear"], equiv=2)
         ic_stage(out, "index-containers", prop, ["vec", "stride", "list", "opt"], "full", 4, 0)
@@ -1003,6 +1006,7 @@ def run_property(prop, tier, seed):
         # offset sequences beyond u32::MAX: the ICMC histories over a monotone alphabet (a 2^31 stride past 2^32, a value
         # that breaks it, its next multiple) read as item lengths of ConsecutiveIndexPairs over a zero-sized payload
         ic_stage(out, "offsets-through-pairs", prop, ["opt", "list", "vec"], "mono", 6 if q else 7, 0, extend=False)
+        ic_stage(out, "huge-offsets-through-pairs", prop, ["opt", "list", "vec"], "monobig", 4 if q else 5, 0, extend=False)
         contract_trace_stage(out, ["C12"], q, seed, subjects=names)
     elif prop == "C13":
         names = subjects_where(cat, lambda e: e["caps"]["get"])
@@ -1040,6 +1044,9 @@ def run_property(prop, tier, seed):
         # a read item of another container (raw or coded) as input form: reads, bit ranges and the statistics
         # that the next generation is built from
         huffman_random_stage(out, q, seed, lambda e: e.get("wrapped", False) and not e["why"].startswith("cmp"), "huffman-wrapped")
+        # the ICMC index sequences (2^32 boundary, extend batches) through SliceRegion<MirrorRegion<usize>, S>: slice form
+        # (bulk path) against a twin fed the same slices as read items of another region
+        ic_stage(out, "index-forms-through-region", prop, ["opt", "list", "vec"], "full", 4, 0)
         contract_trace_stage(out, ["C20"], q, seed)
     elif prop == "C17":
         names = subjects_where(cat, lambda e: is_structural(e["shape"]))
